@@ -213,5 +213,102 @@ theorem builtinCall2_w (b : Builtin) (ts : List TId) (d1 : Nat) :
   unfold builtinCall2
   mvcgen [g, ks, k0, k1, k2, k3, k4, k5, k6, k7, k8, k9, k10, k11, k12, k13, k14, k15, k16, k17]; wfin
 
+omit hrec in
+theorem allocPrims_w (items : List Prim) : ⦃fun st => ⌜StoreWF st⌝⦄ allocPrims items ⦃QT⦄ := by
+  unfold allocPrims; mvcgen; wfin
+
+omit hrec in
+theorem pureOut_w (o : PureOut) : ⦃fun st => ⌜StoreWF st⌝⦄ pureOut o ⦃QT⦄ := by
+  have g0 := allocPrims_w
+  unfold pureOut; mvcgen [g0]; wfin
+
+theorem forceAll_w (ts : List TId) (d1 : Nat) : ⦃fun st => ⌜StoreWF st⌝⦄ forceAll rec ts d1 ⦃QT⦄ := by
+  have h := rec_w rec hrec
+  unfold forceAll; mvcgen [h]; wfin
+
+theorem coerceAll_w (vals : List Value) (d1 : Nat) : ⦃fun st => ⌜StoreWF st⌝⦄ coerceAll rec vals d1 ⦃QT⦄ := by
+  have h5 := coerceToString_w rec hrec
+  unfold coerceAll; mvcgen [h5]; wfin
+
+theorem forceBytes_w (items : List TId) (item : PArg → Except PErr Nat) (d1 : Nat) :
+    ⦃fun st => ⌜StoreWF st⌝⦄ forceBytes rec items item d1 ⦃QT⦄ := by
+  have h := rec_w rec hrec
+  unfold forceBytes; mvcgen [h]; wfin
+
+omit hrec in
+theorem fmtTakeW_w (spec : Option Format.FW) (items : List TId) (i : Nat) :
+    ⦃fun st => ⌜StoreWF st⌝⦄ fmtTakeW spec items i ⦃QT⦄ := by
+  unfold fmtTakeW; mvcgen; wfin
+
+theorem fmtForceOpt_w (t : Option TId) (d : Nat) : ⦃fun st => ⌜StoreWF st⌝⦄ fmtForceOpt rec t d ⦃QT⦄ := by
+  have h := rec_w rec hrec
+  unfold fmtForceOpt; mvcgen [h]; wfin
+
+theorem fmtItem_w (c : Format.Code) (v : Value) (d : Nat) : ⦃fun st => ⌜StoreWF st⌝⦄ fmtItem rec c v d ⦃QT⦄ := by
+  have h5 := coerceToString_w rec hrec
+  unfold fmtItem; mvcgen [h5]; wfin
+
+theorem fmtArrayCode_w (c : Format.Code) (items : List TId) (i d : Nat) :
+    ⦃fun st => ⌜StoreWF st⌝⦄ fmtArrayCode rec c items i d ⦃QT⦄ := by
+  have h := rec_w rec hrec
+  have g0 := fmtTakeW_w
+  have g1 := fmtForceOpt_w rec hrec
+  have g2 := fmtItem_w rec hrec
+  unfold fmtArrayCode; mvcgen [h, g0, g1, g2]; wfin
+
+theorem fmtArrayPart_w (p : Format.Part) (items : List TId) (i : Nat) (out : List Char) (d : Nat) :
+    ⦃fun st => ⌜StoreWF st⌝⦄ fmtArrayPart rec p items i out d ⦃QT⦄ := by
+  have g := fmtArrayCode_w rec hrec
+  cases p <;> (unfold fmtArrayPart; mvcgen [g]; wfin)
+
+theorem fmtArray_w (parts : List Format.Part) (items : List TId) (d : Nat) :
+    ⦃fun st => ⌜StoreWF st⌝⦄ fmtArray rec parts items d ⦃QT⦄ := by
+  have g := fmtArrayPart_w rec hrec
+  unfold fmtArray; mvcgen [g]; wfin
+
+theorem fmtObjectCode_w (c : Format.Code) (o : OId) (d : Nat) :
+    ⦃fun st => ⌜StoreWF st⌝⦄ fmtObjectCode rec c o d ⦃QT⦄ := by
+  have h := rec_w rec hrec
+  have g2 := fmtItem_w rec hrec
+  unfold fmtObjectCode; mvcgen [h, g2]; wfin
+
+theorem fmtObjectPart_w (p : Format.Part) (o : OId) (out : List Char) (d : Nat) :
+    ⦃fun st => ⌜StoreWF st⌝⦄ fmtObjectPart rec p o out d ⦃QT⦄ := by
+  have g := fmtObjectCode_w rec hrec
+  cases p <;> (unfold fmtObjectPart; mvcgen [g]; wfin)
+
+theorem fmtObject_w (parts : List Format.Part) (o : OId) (d : Nat) :
+    ⦃fun st => ⌜StoreWF st⌝⦄ fmtObject rec parts o d ⦃QT⦄ := by
+  have g := fmtObjectPart_w rec hrec
+  unfold fmtObject; mvcgen [g]; wfin
+
+theorem pureFinish_w (spec : PureSpec) (vals : List Value) (d1 : Nat) :
+    ⦃fun st => ⌜StoreWF st⌝⦄ pureFinish rec spec vals d1 ⦃QT⦄ := by
+  have g2 := forceBytes_w rec hrec
+  have g3 := pureOut_w
+  have g4 := fmtArray_w rec hrec
+  have g5 := fmtObject_w rec hrec
+  unfold pureFinish; mvcgen [g2, g3, g4, g5]; wfin
+
+theorem binaryOp3_w (op : BinOp) (l r : Value) (d : Nat) (hs : Bool) :
+    ⦃fun st => ⌜StoreWF st⌝⦄ binaryOp3 cfg rec op l r d hs ⦃QT⦄ := by
+  have g0 := binaryOp_w cfg rec hrec
+  have g1 := pureFinish_w rec hrec
+  unfold binaryOp3; mvcgen [g0, g1]; wfin
+
+/-- the generic pure builtin stores no object -/
+theorem std_pure_w (spec : PureSpec) (ts : List TId) (d1 : Nat) :
+    ⦃fun st => ⌜StoreWF st⌝⦄ std_pure rec spec ts d1 ⦃QT⦄ := by
+  have g0 := forceAll_w rec hrec
+  have g1 := coerceAll_w rec hrec
+  have g2 := pureFinish_w rec hrec
+  unfold std_pure; mvcgen [g0, g1, g2]; wfin
+
+theorem builtinCall3_w (b : Builtin) (ts : List TId) (d1 : Nat) :
+    ⦃fun st => ⌜StoreWF st⌝⦄ builtinCall3 cfg rec b ts d1 ⦃QT⦄ := by
+  have g := builtinCall2_w cfg rec hrec
+  have k := std_pure_w rec hrec
+  unfold builtinCall3; mvcgen [g, k]; wfin
+
 end
 end Rsj.Eval
